@@ -154,6 +154,29 @@ pub fn ctor_variant_events(cls: &str) -> Vec<Value> {
             }
         }
     }
+    // a refused operation leaves the object as it was: add_string with a 256 / 300-byte text (refused) before,
+    // between and after accepted ones
+    {
+        let bads: [&'static str; 2] = [Box::leak("r".repeat(256).into_boxed_str()), Box::leak("\u{e9}".repeat(150).into_boxed_str())];
+        for (bi, bad) in bads.iter().enumerate() {
+            for place in 0..3usize {
+                let mut y = TXT::new();
+                let goods = ["first", "k=v"];
+                let mut refused = false;
+                for step in 0..3usize {
+                    if step == place {
+                        refused |= y.add_string(bad).is_err();
+                    }
+                    if step < 2 {
+                        let _ = y.add_string(goods[step]);
+                    }
+                }
+                if refused {
+                    txts.push((format!("add_string-after-refusal#{bi}.{place}"), y));
+                }
+            }
+        }
+    }
     for (i, m) in [
         vec![("k", Some("v"))], vec![("flag", None)], vec![("e", Some(""))], vec![("a", Some("1")), ("b", None), ("c", Some(""))],
         vec![("long", Some(&*Box::leak("v".repeat(249).into_boxed_str())))],
@@ -177,6 +200,32 @@ pub fn ctor_variant_events(cls: &str) -> Vec<Value> {
             evs.push(roundtrip_of_packet(&format!("{cls} ctor TXT {how}{}", if owned { " owned" } else { "" }), &p));
         }
     }
+    // the smallest entries there are: 1..4 questions about the root, 1..3 records owned by the root with empty
+    // RDATA, and both -- sections that take 5 / 11 bytes per entry, with nothing behind them
+    {
+        use simple_dns::{Question, QCLASS, QTYPE, TYPE};
+        for nq in 0..=4usize {
+            for nr in 0..=3usize {
+                if nq + nr == 0 {
+                    continue;
+                }
+                let mut p = Packet::new_query(5);
+                for i in 0..nq {
+                    let qt = [QTYPE::ANY, QTYPE::TYPE(TYPE::A), QTYPE::AXFR, QTYPE::TYPE(TYPE::TXT)][i % 4];
+                    p.questions.push(Question::new(Name::new_unchecked(""), qt, QCLASS::ANY, i % 2 == 1));
+                }
+                for i in 0..nr {
+                    let rr = ResourceRecord::new(Name::new_unchecked(""), CLASS::IN, i as u32, RData::Empty([TYPE::NULL, TYPE::A, TYPE::Unknown(65280)][i % 3]));
+                    match i % 3 {
+                        0 => p.answers.push(rr),
+                        1 => p.name_servers.push(rr),
+                        _ => p.additional_records.push(rr),
+                    }
+                }
+                evs.push(roundtrip_of_packet(&format!("{cls} ctor minimal entries"), &p));
+            }
+        }
+    }
     // typed SVCB setters
     let mut s = SVCB::new(1, Name::new_unchecked("svc.example"));
     s.set_port(443);
@@ -185,6 +234,21 @@ pub fn ctor_variant_events(cls: &str) -> Vec<Value> {
     let _ = s.set_ipv4hint([0x0a000001u32, 0x0a000002]);
     let _ = s.set_ipv6hint([1u128]);
     let _ = s.set_mandatory([1u16, 3]);
+    // the same for the SVCB parameters: an over-long value is refused, a parameter set twice is replaced
+    let mut s2 = SVCB::new(2, Name::new_unchecked("svc2.example"));
+    let _ = s2.set_param(7, vec![7u8; 70000]);
+    s2.set_port(80);
+    let _ = s2.set_param(9, vec![9u8; 65536]);
+    s2.set_port(8080);
+    let _ = s2.set_param(65000, vec![1u8, 2, 3]);
+    let _ = s2.set_param(65000, vec![4u8]);
+    for https in [false, true] {
+        let mut p = Packet::new_reply(4);
+        let rd = if https { RData::HTTPS(HTTPS(s2.clone())) } else { RData::SVCB(s2.clone()) };
+        p.answers.push(ResourceRecord::new(Name::new_unchecked("s2.example"), CLASS::IN, 10, rd));
+        tail(&mut p);
+        evs.push(roundtrip_of_packet(&format!("{cls} ctor SVCB after refusal"), &p));
+    }
     for https in [false, true] {
         let mut p = Packet::new_reply(4);
         let rd = if https { RData::HTTPS(HTTPS(s.clone())) } else { RData::SVCB(s.clone()) };
